@@ -252,6 +252,7 @@ type World struct {
 	// raw extra objects (hostile worlds)
 	ExtraBindRequests []RawBindRequest `json:"extraBindRequests,omitempty"`
 	Family            string           `json:"family,omitempty"` // C05 clause (b): reclaim | preempt
+	RawOps            []RawOp          `json:"rawOps,omitempty"` // corruptions of the built objects (rawops.go)
 	// PersistentScheduler: one scheduler process lives through all cycles instead of a restart per cycle (process.go)
 	PersistentScheduler bool `json:"persistentScheduler,omitempty"`
 }
@@ -442,6 +443,7 @@ func (w *World) Build(now time.Time) *Objects {
 		})
 	}
 	w.BuildDRA(o)
+	applyRawOps(o, w.RawOps)
 	return o
 }
 
